@@ -27,6 +27,11 @@ UsedFx(Mm) == {Mm.arcs[r][1] : r \in DOMAIN Mm.arcs} \cup {Mm.arcs[r][3] : r \in
 Barren(Mm, q) == Outdeg(Mm, q) = 0 /\ \A r \in DOMAIN Mm.arcs : Mm.arcs[r][3] # q
 NormalisedOK(e) == \A q \in UsedFx(e.M) : Barren(e.M, q) \/
    LET d == MassFx(e.M, q) - FxScale  t == 3 * Outdeg(e.M, q) + 2 IN -t <= d /\ d <= t
+(* a long string (a walk of 25-40 arcs through the automaton, or that walk with one character changed): the weight   *)
+(* the automaton's __call__ reports is non-zero exactly when an accepting path spells it - however small the weight  *)
+BoolM(Mm) == [n |-> Mm.n, I |-> [i \in DOMAIN Mm.I |-> <<Mm.I[i][1], 1>>], F |-> [i \in DOMAIN Mm.F |-> <<Mm.F[i][1], 1>>],
+              arcs |-> [r \in DOMAIN Mm.arcs |-> <<Mm.arcs[r][1], Mm.arcs[r][2], Mm.arcs[r][3], 1>>]]
+LongOK(e) == ~Has(e, "long") \/ ((e.longpos = 1) <=> (AWeightLfp("Bool", BoolM(e.M), e.long) = 1))
 NoEpsOK(e) == \A r \in DOMAIN e.M.arcs : e.M.arcs[r][2] # ""
 
 (* C19: the grammar accepts exactly the listed strings (Boolean reading of its weights) *)
@@ -55,6 +60,7 @@ Failed(e) ==
                               \cup (IF RxLang(e.re, SetOf(e.cs), e.fold, e.L) = SetOf(e.re_acc) THEN {} ELSE {"ORACLE"})
                               \cup (IF NormalisedOK(e) THEN {} ELSE {"normalised"})
                               \cup (IF NoEpsOK(e) THEN {} ELSE {"epsfree"})
+                              \cup (IF LongOK(e) THEN {} ELSE {"support"})
          [] e.op = "lark" -> IF CharLangOK(e) THEN {} ELSE {"charlang"}
          [] e.op = "larkbytes" -> IF ByteLangOK(e) THEN {} ELSE {"bytelang"}
          [] e.op = "accepts" -> (IF AcceptsOK(e) THEN {} ELSE {"accepts"})
